@@ -41,7 +41,7 @@ class Contract:
                  no_return=False, props=(), ghost_asserts=None, notes="", assumed=False,
                  locals=None, ghost_modifies=(), decreases=None, loop_all=None, closure=None,
                  waive=(), havoc_stmts=(), dyn_call_ghost=None, ghost_calls=(), exit_post=(),
-                 valid_schema=False, raise_post=(), rely=None):
+                 valid_schema=False, raise_post=(), rely=None, call_pre=None, start_at=None):
         self.target = target
         self.requires = list(requires)
         self.ensures = list(ensures)
@@ -69,6 +69,11 @@ class Contract:
         self.ghost_calls = list(ghost_calls)   # ghost counters of calls to this function
         self.exit_post = list(exit_post)       # clauses over the locals, checked at every return
         self.valid_schema = valid_schema       # assume schema validity facts (A7) in this proof
+        self.start_at = start_at   # source prefix of the first top-level statement that is executed:
+                                   # the statements before it are cut (their assigned names and
+                                   # stored attributes become arbitrary values; reported)
+        self.call_pre = call_pre or {}   # "callee#k" (k-th call of callee in source order, from 1)
+                                         # -> clauses over the caller's locals and arg_<param>
         self.rely = rely or {}   # callee short name -> {"closure": local def, "inv": [clauses]}:
                                  # the callee may invoke that local closure any number of times;
                                  # inv is proved inductive for the closure body and assumed after
